@@ -63,6 +63,18 @@ def main():
         return gap or span
     desc = lambda o: {k: o["obs"].get(k) for k in ("result", "err", "zooms", "zint", "unmapped")}
     obs = run_batches(run, "C07", "MC_BigWig", cfgs, "Obs_BigWig", nt, desc, build)
+    # chromosomes of very unequal size, big first and big last: the file-wide figures a reader depends on (the decompression buffer
+    # size in the header above all) must cover the LARGEST section of ANY chromosome and level; manual zooms [2, 8], 4 records per zoom
+    # section (larger than a data section), single and two pass, compressed and not (no mechanism-level expectation: "nomech")
+    for k in range(12):
+        big = [[1, 2 * i, 2 * i + 1, 1 + i % 3] for i in range(60)]
+        small = [[2, 3, 4, 2]]
+        if k % 2:
+            big, small = [[2, it[1], it[2], it[3]] for it in big], [[1, 3, 4, 2]]
+        auto.append({"kind": "bw", "chroms": [130, 130], "items": sorted(big + small, key=lambda it: (it[0], it[1])), "vmap": "int", "allq": 0, "zq": 1, "mz": [], "scale": 1,
+                     "asq": "bed3", "long": 0, "nomech": 1, "msum": {"bases": 0, "sum": 0, "sumsq": 0, "min": 0, "max": 0, "int": 1},
+                     "opts": {"ips": 4, "bs": 3, "zmode": "manual", "zooms": [2, 8], "compress": 1 if k < 10 else 0, "inmem": (k // 4) % 2, "rt": "multi", "threads": 2,
+                              "pass": 1 + (k // 2) % 2, "chan": 100, "sort": "all"}})
     obs += judge(run, "C07", "Obs_BigWig", auto, nt, desc)
     autos = [o for o in obs if o["opts"].get("zmode") == "auto"]
     run.cov["automatic_zoom_cases"] = len(autos)
